@@ -3,8 +3,8 @@ explores through the real library. Nothing in here decides a verdict."""
 import random
 from vlib import *
 
-ALLSRC = ("vec", "iter", "iterx", "slice", "range", "deque", "list", "btree")
-OWNING = ("vec", "iter", "iterx", "deque", "list", "btree")
+ALLSRC = ("vec", "iter", "iterx", "slice", "range", "deque", "list", "btree", "vecadv", "dequeref", "btreeref")
+OWNING = ("vec", "iter", "iterx", "deque", "list", "btree", "vecadv")
 
 
 def py_calls(p):
@@ -108,21 +108,35 @@ def matrix(rng, tier, mk_terms, add, nts=(2, 3, 4), nt1=False, reps=1):
                      cs=rng.choice([("cs", c), ("cs", c), ("csmin", c)]))
         p["term"] = mk(rng, src, sh)
         add(norm(p), "rand" if not nt1 else "free")
+    tiny = rng.choice([0, 1, 1, 2])
+
+    def one_n(sh, mk, c, n_):
+        src = rng.choice(("vec", "iterx", "iter") if len(sh) == 3 else ("vec", "iterx", "iter", "slice", "range"))
+        p = gen_prog(rng, src=src, shape=sh, n=n_, nt=(1 if nt1 else rng.choice(nts)), cs=("cs", c))
+        p["term"] = mk(rng, src, sh)
+        add(norm(p), "rand" if not nt1 else "free")
+    fam = shapes_by_family(3, by_type=True)          # the eight computation types
     if tier == "quick":
         for rep in range(reps):
             for i, sh in enumerate(ALLSHAPES):
                 one(sh, mk_terms[(i + rep) % len(mk_terms)], rng.choice([1, 2, 3]))
-        fam = shapes_by_family(3)
         for f in sorted(fam):
             for mk in mk_terms:
                 for c in (1, rng.choice([2, 3])):
                     one(rng.choice(fam[f]), mk, c)
+                # inputs of 0, 1 and 2 elements reach every kernel too
+                one_n(rng.choice(fam[f]), mk, rng.choice([1, 2]), rng.choice([0, 1, 1, 2]))
     else:
         for rep in range(reps):
             for sh in ALLSHAPES:
                 for mk in mk_terms:
                     for c in (1, rng.choice([2, 3, 5])):
                         one(sh, mk, c)
+        for f in sorted(fam):
+            for mk in mk_terms:
+                for n_ in (0, 1, 2, 3):
+                    for c in (1, 2):
+                        one_n(rng.choice(fam[f]), mk, c, n_)
 
 
 def big_jobs(rng, tier, mk_terms, add):
@@ -191,6 +205,25 @@ def jobs_for(prop, tier, seed):
             return {"k": "collect_into", "tk": r.choice(["vec", "split", "fixed"]),
                     "pre": [r.randrange(V) for _ in range(r.choice([0, 1, 2, 3, 5, 9]))], "cap": r.choice([0, 0, 1, 4, 100])}
         matrix(rng, tier, [ci], add)
+        # pinned-vector targets grow by fragments (doubling: 4, 8, 16, 32, ...; linear: 16 each):
+        # sweep prefix length x input length around the fragment boundaries, map-only and filtering
+        pres = [1, 3, 4, 5, 11, 12, 13, 27, 28, 29, 59, 60, 61]
+        lens = [1, 2, 4, 5, 8, 17, 33, 36]
+        pairs = [(a, b) for a in pres for b in lens]
+        rng.shuffle(pairs)
+        for (a, b) in pairs[:(60 if tier == "quick" else len(pairs))]:
+            for tk in (("split", "fixed") if tier == "quick" else ("split", "splitlin", "vec", "fixed")):
+                src = rng.choice(("vec", "range", "iter", "iterx"))
+                sh = rng.choice(["m", "m", "", "f"]) if src != "range" else rng.choice(["", "f"])
+                if tk == "splitlin":
+                    src, sh = rng.choice(("vec", "iter")), rng.choice(["m", "f", ""])
+                    if sh != "" and not full_ok(src, sh):
+                        sh = "m"
+                p = gen_prog(rng, src=src, shape=sh, n=b, nt=rng.choice([2, 3, 4]), cs=rng.choice([("cs", 1), ("cs", 2), None]))
+                if tk == "splitlin" and not full_ok(src, shape_of(p)):
+                    continue
+                p["term"] = {"k": "collect_into", "tk": tk, "pre": [rng.randrange(V) for _ in range(a)], "cap": rng.choice([0, 0, 3])}
+                add(norm(p), "free" if rng.random() < 0.5 else "rand")
         for _ in range(n):
             shape = rng.choice(["", "m", "mm", "m", None, None])
             src = rng.choice(("iterx", "iter", "vec", "range", "slice", "iterx", "deque", "btree"))
@@ -211,6 +244,12 @@ def jobs_for(prop, tier, seed):
         for _ in range(n):
             add(with_term(rng, lambda r, s, sh: {"k": "collect_x"}))
     elif prop == "C08":
+        for i in range(12):
+            p = gen_prog(rng, src=rng.choice(("vec", "iterx")), shape=rng.choice(["", "m", "f"]), n=24, nt=rng.choice([2, 3, 4]), cs=("cs", 1))
+            p["term"] = {"k": "reduce", "op": "add"} if i % 3 else {"k": "min_by_key", "t": [rng.randrange(3) for _ in range(V)]}
+            if p["term"]["k"] == "min_by_key" and not full_ok(p["src"], shape_of(p)):
+                p["term"] = {"k": "reduce", "op": "max"}
+            add(norm(p), "rand")
         for _ in range(n):
             nt = rng.choice([1, 1, 2, 2, 3, 3, 4, 5, 6, 32])
             add(with_term(rng, lambda r, s, sh: any_term(r, s, sh), nt=nt,
@@ -321,6 +360,25 @@ def jobs_for(prop, tier, seed):
             p = with_term(rng, lambda r, s, sh: {"k": "find", "t": [0, 0, 0, 0, 0, 1]}, n=9, src=src, shape="m", nt=3, cs=h)
             add(p, "free")
     elif prop == "C16":
+        # sequences of setters (the terminal must run under the LAST values set, whatever was set before)
+        seqs = [[("nt", a), (ck, b), ("nt", c)] for a in (1, 2, 3) for ck in ("cs", "csmin") for b in (1, 2, 3) for c in (1, 2, 3)] + \
+               [[(ck, b), ("nt", a), (ck2, b2)] for a in (1, 2) for ck in ("cs", "csmin") for b in (1, 3) for ck2 in ("cs", "csmin") for b2 in (0, 2)]
+        rng.shuffle(seqs)
+        for sq in seqs[:(60 if tier == "quick" else len(seqs))]:
+            sh = rng.choice(["", "m", "f", "mf", "o"])
+            p = gen_prog(rng, src=rng.choice(("vec", "iterx")), shape=sh, nt=None, cs=None, n=rng.choice([8, 13]))
+            stages = [o for o in p["ops"] if o["k"] in ("map", "filter", "fmap", "flat")]
+            slots = sorted(rng.randrange(len(stages) + 1) for _ in sq)
+            ops, si = [], 0
+            for j in range(len(stages) + 1):
+                while si < len(sq) and slots[si] == j:
+                    ops.append({"k": sq[si][0], "v": sq[si][1]})
+                    si += 1
+                if j < len(stages):
+                    ops.append(stages[j])
+            p["ops"] = ops
+            p["term"] = {"k": rng.choice(["count", "collect_vec", "reduce"]), "op": "add"}
+            add(norm(p), "free")
         shapes = [a + b for a in [""] + list("mflo") + [x + y for x in "mflo" for y in "mflo"] for b in "mflo"]
         for i in range(n):
             sh = shapes[i % len(shapes)] if i < 2 * len(shapes) else None
